@@ -16,7 +16,8 @@
 //!   cond  ∈ T | F | lt:<b> | dec | ltm:<b>                 (loop_condition, may mutate)
 //!   delay ∈ none | fb | fbo | data    fb: every state-feedback message is held 2 ms by the receiving
 //!           head replicas of the last host/replica; fbo: only the outermost leader's feedback, 15 ms, at
-//!           the last host (single host: last replica); data: data batches towards replica 0 held 1 ms
+//!           the last host (single host: last replica); data: data batches towards replica 0 held 1 ms;
+//!           a trailing `s` (`nones`, `fbos`, …) additionally runs the job with `BatchMode::single()`
 //! ops:    `i <x>` input elements
 //! outputs: `state <list>` (collect_vec of the state stream), `items <sorted list>` (iterate),
 //!          `obs <o|i> <round> <distinct observed states…>`  (round = `k`, inner level: `<ko>.<ki>`)
@@ -121,6 +122,15 @@ fn loop_cond(kind: &str, s: &mut i64) -> bool {
 
 const M: i64 = 1000;
 
+/// `delay` values ending in `s` (e.g. `fbos`, `nones`) run the job with `BatchMode::single()`
+fn batch_mode(cfg: &Cfg) -> renoir::BatchMode {
+    if cfg.delay.ends_with('s') {
+        renoir::BatchMode::single()
+    } else {
+        renoir::BatchMode::default()
+    }
+}
+
 // ---------------------------------------------------------------------------------------------
 // loop bodies (generic in the head operator so that `replay` and `iterate` share them)
 
@@ -203,6 +213,7 @@ macro_rules! replay_job {
         let (f1, f2, c1) = (cfg.fold.clone(), cfg.fold.clone(), cfg.cond.clone());
         let src = $env
             .stream(IteratorSource::new(cfg.input.clone().into_iter()))
+            .batch_mode(batch_mode(&cfg))
             .shuffle()
             .map(move |x: i64| {
                 seen_inc(run, 0, 0);
@@ -228,6 +239,7 @@ macro_rules! iterate_job {
         let (f1, f2, c1) = (cfg.fold.clone(), cfg.fold.clone(), cfg.cond.clone());
         let src = $env
             .stream(IteratorSource::new(cfg.input.clone().into_iter()))
+            .batch_mode(batch_mode(&cfg))
             .shuffle()
             .map(move |x: i64| (0i64, 0i64, x));
         let (st, items) = src.iterate(
@@ -263,6 +275,7 @@ macro_rules! nested_job {
         let (f1, f2, c1) = (cfg.fold.clone(), cfg.fold.clone(), cfg.cond.clone());
         let src = $env
             .stream(IteratorSource::new(cfg.input.clone().into_iter()))
+            .batch_mode(batch_mode(&cfg))
             .shuffle()
             .map(move |x: i64| {
                 seen_inc(run, 0, 0);
@@ -342,7 +355,7 @@ fn observer(cfg: &Cfg) -> Arc<dyn Fn(&LinkEvent) + Send + Sync> {
             (l.contains(&e.sender.block_id), l.iter().next() == Some(&e.sender.block_id))
         };
         let last_place = if hosts > 1 { e.dest.host_id == hosts - 1 } else { e.dest.replica_id == cores - 1 };
-        let ms = match delay.as_str() {
+        let ms = match delay.trim_end_matches('s') {
             "fb" if !e.send && is_leader && last_place => 2,
             "fbo" if !e.send && is_leader && is_outer && last_place => 15,
             "data" if e.send && !is_leader && e.dest.replica_id == 0 && e.kinds.iter().any(|k| k.0 == "I") => 1,
@@ -501,7 +514,7 @@ fn gen(rng: &mut Rng, i: usize) -> Case {
         _ => format!("ltm:{}", rng.range(0, 3000)),
     };
     let init = rng.range(-2, 5);
-    let delay = *rng.pick(&["none", "none", "fb", "fbo", "data"]);
+    let delay = *rng.pick(&["none", "none", "fb", "fbo", "data", "nones", "fbos"]);
     let max_inner = rng.range(1, 3);
     let mut c = Case::new(&[
         "loops",
